@@ -296,6 +296,53 @@ def plan(tier, seed):
     return [{'shard': i, 'of': 16} for i in range(16)]
 
 
+GROWTH_FAMILIES = {
+    # name -> text of size parameter k; parsing time must not explode with k (termination on every input)
+    'blank-lines-inside-note': lambda k: "Table t {\n  id int\n  Note: '''\nfirst" + '\n' * k + "last\n'''\n}\n",
+    'blank-lines-before-note-text': lambda k: "Table t {\n  id int\n  Note: '''" + '\n' * k + "text\n'''\n}\n",
+    'blank-lines-after-note-text': lambda k: "Note s {\n'''text" + '\n' * k + "'''\n}\n",
+    'blank-lines-with-blanks-inside-note': lambda k: "Table t {\n  id int [note: '''a" + '  \n' * k + "b''']\n}\n",
+    'blank-lines-between-elements': lambda k: 'Table t {\n  id int\n}' + '\n' * k + 'Enum e {\n  a\n}\n',
+    'blanks-before-line-end': lambda k: 'Table t {\n  id int' + ' ' * k + '\n}\n',
+    'long-comment-run': lambda k: '//' + ' x' * k + '\nTable t {\n  id int ' + '/* c */ ' * (k // 4) + '\n}\n',
+    'nested-brackets-in-type': lambda k: 'Table t {\n  id int' + '(1' * min(k, 15) + ')' * min(k, 15) + '\n}\n',
+    'quotes-run-in-note': lambda k: "Table t {\n  id int [note: 'a" + "\\'" * k + "b']\n}\n",
+    'backslashes-in-note': lambda k: "Table t {\n  id int [note: 'a" + '\\\\' * k + "b']\n}\n",
+}
+
+
+def growth_probe(sh):
+    """'parsing terminates': each family is parsed for growing sizes in a child process (a runaway regular expression
+    cannot be interrupted in-process).  The verdict is relative: the largest size may take at most 40 x the smallest one
+    plus half a second; only a child that exceeds its generous timeout AND a blown ratio make a violation, a slow machine
+    scales both ends alike."""
+    import subprocess
+    import sys
+    import time
+    prog = ('import sys, time\nfrom pydbml import PyDBML\nsrc = sys.stdin.read()\nt = time.perf_counter()\n'
+            'try:\n    PyDBML(src)\n    r = "OK"\nexcept Exception as e:\n    r = type(e).__name__\nprint(r, time.perf_counter() - t)\n')
+    for fam, mk in GROWTH_FAMILIES.items():
+        times = {}
+        for k in (12, 18, 24, 30, 60):
+            try:
+                p = subprocess.run([sys.executable, '-c', prog], input=mk(k), stdout=subprocess.PIPE, stderr=subprocess.PIPE, text=True, timeout=40)
+                times[k] = float(p.stdout.split()[-1]) if p.stdout.split() else None
+            except subprocess.TimeoutExpired:
+                times[k] = 'timeout'
+                break
+        sh.case(['growth', fam], nontrivial=True, sample={'stream': 'growth', 'family': fam, 'seconds': {str(a): b for a, b in times.items()}})
+        sh.count('obs.inputs.growth')
+        base = times.get(12)
+        worst = [v for v in times.values() if v == 'timeout' or isinstance(v, float)]
+        if not isinstance(base, float):
+            sh.inconclusive.append(f'growth probe {fam}: no base measurement')
+            continue
+        blown = [k for k, v in times.items() if v == 'timeout' or (isinstance(v, float) and v > 40 * base + 0.5)]
+        if blown:
+            sh.violation('parse', f'termination:parse-time-explodes:{fam}', f'{fam}: seconds by size {times}',
+                         {'kind': 'text', 'text': mk(30), 'props': False}, {'stream': 'growth', 'family': fam})
+
+
 def run_shard(spec, tier, seed, budget_s):
     sh = Shard(ID, budget_s)
     i, n = spec['shard'], spec['of']
@@ -304,6 +351,11 @@ def run_shard(spec, tier, seed, budget_s):
     if i == 0:
         for t in ['', ' ', '\n', '\n\n\n', '// only a comment', '// c\n', '/* block */', '/* a\nb */\n', '﻿', '﻿\n',
                   '﻿Table t {\n a int\n}', '﻿﻿Table t {\n a int\n}', '\t', '\r\n', 'Table', '{', '}', "'", '"', '`', '\x00']:
+            run_input(sh, t, 'trivial')
+        # one-line texts that look like something else (a file name, a path, a URL, an option): they are DBML text all the same
+        for t in ['schema.dbml', '// generated from schema.dbml', '/* see legacy.dbml', '// x.DBML', 'a.dbml\n', './schema.dbml', '/tmp/x.dbml',
+                  'C:\\schema.dbml', 'file:///x.dbml', 'http://example.com/x.dbml', '-', '--help', '~', '.', '..', '/', 'None', 'null', '0',
+                  'Table t {\n a int\n} // a.dbml', '// a.sql', 'schema.json', 'Note n {\n \'x.dbml\'\n}']:
             run_input(sh, t, 'trivial')
         for depth in (1, 5, 10, 20, 40, 200, 2000):
             run_input(sh, 'Table t {\n a int' + '(' * depth + 'x' + ')' * depth + '\n}', 'nesting', depth=depth)
@@ -365,6 +417,8 @@ def run_shard(spec, tier, seed, budget_s):
             for body in ('Ref: a.x > b.y\n', 'Ref r {\n  a.x - b.y\n}\n', 'TableGroup g {\n  t\n}\n', 'TableGroup g {\n  s.t\n  u\n}\n',
                          'Enum e {\n  a\n}\nRef: a.x <> a.x\n', 'Project p {\n  k: \'v\'\n}\nTableGroup g {\n  t\n}\n', 'Note n {\n  \'t\'\n}\nRef: a.x < b.y\n'):
                 run_input(sh, body, 'refshape', feats={'form': 'tableless'})
+    if i == 6:
+        growth_probe(sh)
     # hostile substitution
     k = 0
     target = {'quick': 150, 'thorough': 6000}[tier]
